@@ -469,6 +469,12 @@ def run_schemes(c):
             for bit in bits:
                 x = bytearray(ct); x[bit // 8] ^= 0x80 >> (bit % 8)
                 fol(key + ":decrypt:ctbit%d" % bit, dict(base, ct=bytes(x)), genuine=False, expect=m.hex(), refde=dehex)
+            # the C3 tag changed in ways that cancel in a byte sum / XOR fold / order-insensitive or shortened comparison (located by its value in the DER)
+            c3 = pc[2]
+            off3 = ct.find(c3)
+            if off3 >= 0 and ct.count(c3) == 1:
+                for nm, tx in CL.cancelling(c3):
+                    fol(key + ":decrypt:c3:%s" % nm, dict(base, ct=ct[:off3] + tx + ct[off3 + len(c3):]), genuine=False, expect=m.hex(), refde=dehex)
             for _ in range(1 if q else 3):
                 try:
                     C1, C2, C3 = R.encrypt(Ppube, ident, m, rng.randrange(1, N))
